@@ -20,8 +20,12 @@
         aarg: VL [] attrs omitted | VL [VN 0; VN i] the caller's i-th dictionary | VL [VN 1; attrs] a literal
         sop: [VN 0; VB tag; aarg; kw] new_ele | [VN 1; VB tag; ns; aarg; kw] new_ele_ns | [VN 2; VB tag; VL decls; aarg; kw] new_ele_nsmap
              [VN 3; VN tree; VL path; VB tag; aarg; kw] sub_ele | [VN 4; VN tree; VL path; VB tag; ns; aarg; kw] sub_ele_ns
-             [VN 5; VN i; name; VB value] the caller's own d_i[name] = value *)
-From NC Require Import Model.Base Model.XTree Model.XmlHelpers Model.XmlHistory Model.XmlSession Glue.XCodec.
+             [VN 5; VN i; name; VB value] the caller's own d_i[name] = value
+   fn 11 reparse    [VL table; VL rops] -> VL [ VL trees ... ]   (every tree handed out so far, after every call)
+        table entry: [VN huge; VB text; VL [mnode] | VL []]   what the parser reads from the text (VL []: rejected)
+        rop: [VN 0; VN huge; VB text] to_ele(text, huge_tree) | [VN 1; VN tree; hop] a helper on an element of that tree
+             [VN 2; VN tree; mnode] the caller's own edit of that tree: the tree afterwards *)
+From NC Require Import Model.Base Model.XTree Model.XmlHelpers Model.XmlHistory Model.XmlSession Model.XmlReparse Glue.XCodec.
 
 Definition dec_tags (v : val) : tagsarg :=
   match v with
@@ -97,6 +101,21 @@ Definition dec_sop (v : val) : sop :=
 Definition enc_sstate (st : sstate) : val :=
   VL [VL (map enc_attrs (s_dflt st)); VL (map enc_attrs (s_dicts st)); VL (map enc_m (s_trees st))].
 
+Definition dec_tentry (v : val) : bool * bytes * option mnode :=
+  match v with
+  | VL [VN h; VB s; VL [t]] => (negb (N.eqb h 0), s, Some (dec_m t))
+  | VL [VN h; VB s; _] => (negb (N.eqb h 0), s, None)
+  | _ => (false, [], None)
+  end.
+
+Definition dec_rop (v : val) : rop :=
+  match v with
+  | VL [VN 0; VN h; VB s] => RParse (negb (N.eqb h 0)) s
+  | VL [VN 1; VN k; o] => RHelper (N.to_nat k) (dec_hop o)
+  | VL [VN 2; VN k; t] => RCaller (N.to_nat k) (dec_m t)
+  | _ => RParse false []
+  end.
+
 Definition run (v : val) : val :=
   match v with
   | VL [VN 1; VB ser; VB enc] => VB (to_xml ser enc)
@@ -116,5 +135,8 @@ Definition run (v : val) : val :=
       VL (map (fun so => VL [enc_m (fst so); enc_obs (snd so)]) (htrace (fun _ _ => []) (dec_m t) (map dec_hop ops)))
   | VL [VN 10; VL dflt; VL dicts; VL ops] =>
       VL (map enc_sstate (strace (mkS (map dec_attrs dflt) (map dec_attrs dicts) []) (map dec_sop ops)))
+  | VL [VN 11; VL tb; VL ops] =>
+      VL (map (fun ts => VL (map enc_m ts))
+              (rtrace (table_parser (map dec_tentry tb)) (fun _ _ => []) [] (map dec_rop ops)))
   | _ => verr 1
   end.
